@@ -28,6 +28,7 @@ type Scenario struct {
 	Final    []string  `json:"final"`
 	Strategy Strategy  `json:"strategy"`
 	Budget   int       `json:"budget"`
+	StepLog  bool      `json:"steplog"` // record every synchronisation step and the table projection after the preload (CLHT conformance)
 }
 
 type Strategy struct {
@@ -128,6 +129,13 @@ func (rn *runner) visitorFor(t int, name string, arg SeqOp, nvis *int, balSeen m
 		}
 		return !(stop > 0 && *nvis >= stop)
 	}
+}
+
+func (rn *runner) container() interface{} {
+	if rn.m != nil {
+		return rn.m
+	}
+	return rn.c
 }
 
 func (rn *runner) delOp() string {
@@ -291,6 +299,20 @@ func runOnce(sc *Scenario, pick vsched.Picker, keepLog bool, before func(r *vsch
 	for _, op := range sc.Preload {
 		rn.call(0, op)
 	}
+	if sc.StepLog {
+		if tb, ok := tableOf(rn.container(), true); ok {
+			b, _ := json.Marshal(tb)
+			rn.rec.add(&Event{Ev: "init", Note: string(b)})
+		}
+		rec := rn.rec
+		vsched.StepHook = func(t int, op vsched.Op, ok bool) {
+			if op.Kind == vsched.KGosched || op.Kind == vsched.KUser || op.Kind == vsched.KStart {
+				return
+			}
+			rec.add(&Event{Ev: "step", T: t + 1, Op: op.Kind.String(), Fn: vsched.SiteOf(op.PC), K: vsched.FuncOf(op.PC2), Ok: ok})
+		}
+		defer func() { vsched.StepHook = nil }()
+	}
 	if rn.c != nil {
 		// the clock is frozen during the concurrent phase; its value is part of the history
 		rn.rec.add(&Event{Ev: "phase", Now: vtime.VNow() / rn.unit})
@@ -372,6 +394,9 @@ func histKey(evs []*Event) string {
 	h := sha1.New()
 	enc := json.NewEncoder(h)
 	for _, e := range evs {
+		if e.Ev == "step" || e.Ev == "init" {
+			continue
+		}
 		if e.Ev == "end" {
 			c := *e
 			c.Fn, c.N = "", 0 // the schedule is not part of the history
